@@ -13,6 +13,7 @@ inductive Ev where
   | decided                  -- the reader reset waitReadSize: the outcome of waitRead is fixed
   | consumed (k : Nat)       -- the reader took k bytes out of the input buffer
   | fired                    -- the read timer expired
+  | tickTaken (len : Nat)    -- the reader's select took the timer case; `len` = bytes buffered at that moment (as published by the poller)
   | peerClose                -- the hang-up won closeBy(poller)
   | userClose                -- a user Close() won closeBy(user) or forced closing := user
   | panic (who : String)
@@ -39,6 +40,7 @@ structure Acc where
   frozen : Bool := false       -- stop recording Len() loads (decision made / consumption started)
   consumed : Nat := 0
   fired : Bool := false
+  lenAtTick : Option Nat := none
   peer : Bool := false
   user : Bool := false
   errs : List String := []
@@ -51,12 +53,13 @@ def bad (a : Acc) (msg : String) : Acc := { a with errs := a.errs ++ [s!"C07 cal
 def onEv (a : Acc) : Ev → Acc
   | .call idx op n mode _ =>
       { a with inCall := true, idx := idx, op := op, n := n, mode := mode, firstLen := none, lastLen := none,
-               decided := false, frozen := false, consumed := 0, fired := false }
+               decided := false, frozen := false, consumed := 0, fired := false, lenAtTick := none }
   | .lenSeen v =>
       if a.inCall && !a.frozen then { a with firstLen := a.firstLen.orElse (fun _ => some v), lastLen := some v } else a
   | .decided => { a with decided := true, frozen := true }
   | .consumed k => { a with consumed := a.consumed + k, frozen := true }
   | .fired => { a with fired := true }
+  | .tickTaken len => { a with lenAtTick := some len }
   | .peerClose => { a with peer := true }
   | .userClose => { a with user := true }
   | .panic who => { a with errs := a.errs ++ [s!"C07 panic in {who} (call {a.idx} {a.op}{a.n}{a.mode})"] }
@@ -77,6 +80,9 @@ def onEv (a : Acc) : Ev → Acc
           match seen with
           | some v => if v ≥ a.n then a := bad a s!"ErrReadTimeout although {v} bytes were buffered at the (double) check"
           | none => a := bad a "ErrReadTimeout without looking at the buffer"
+          match a.lenAtTick with
+          | some v => if v ≥ a.n then a := bad a s!"ErrReadTimeout although {v} bytes were already buffered when the timer case was taken"
+          | none => pure ()
           if a.consumed > 0 || got > 0 then a := bad a s!"a timed-out call consumed {a.consumed} bytes"
         else if res == "eof" then
           if !a.peer then a := bad a "ErrEOF before any peer close"
